@@ -3,7 +3,7 @@ CONSTANTS
   RowSet = {1, 2}
   ColSet = {1, 26}
   MaxCells = 2
-  FormSet = {"num1", "num2", "numn2", "numdec", "numexp", "numbig", "numf", "nempty", "nnov", "styled", "fonly", "ss0", "ss1", "fstr", "istr", "btrue", "bfalse", "ediv", "ena", "ename", "enull", "enum", "eref", "evalue", "egetting", "iso"}
+  FormSet = {"num1", "num2", "numn2", "numdec", "numexp", "numbig", "numf", "nempty", "nnov", "styled", "fonly", "ss0", "ss1", "fstr", "fstresc", "istr", "btrue", "bfalse", "ediv", "ena", "ename", "enull", "enum", "eref", "evalue", "egetting", "iso"}
   DimKinds = {"absent"}
   GapToks = {}
   Ignorables = {}
